@@ -280,13 +280,29 @@ impl DIDUrl {
   /// Parse a [`DIDUrl`] from a string.
   pub fn parse(input: impl AsRef<str>) -> Result<Self, Error> {
     let input: &str = input.as_ref();
-    // The underlying parser ignores surrounding whitespace and control characters but keeps them
-    // in the stored string, which shifts every component: only accept input it parses verbatim.
-    if input.trim_matches(|ch: char| ch.is_ascii_control() || ch.is_ascii_whitespace()) != input {
-      return Err(Error::InvalidScheme);
-    }
-    let did_url: BaseDIDUrl = BaseDIDUrl::parse(input)?;
-    Self::from_base_did_url(did_url)
+    // Split off the fragment, the query and the path here: the underlying parser reads one character too many
+    // after a percent-encoded triple (`did:a:b?x=%41` left its offsets past the end of the string and the
+    // accessors panicked, `did:a:b?x=%41#f` lost its fragment). The DID itself is parsed by `CoreDID::parse`.
+    let (rest, fragment): (&str, Option<&str>) = match input.split_once('#') {
+      Some((rest, fragment)) => (rest, Some(fragment)),
+      None => (input, None),
+    };
+    let (rest, query): (&str, Option<&str>) = match rest.split_once('?') {
+      Some((rest, query)) => (rest, Some(query)),
+      None => (rest, None),
+    };
+    let (did, path): (&str, &str) = rest.split_at(rest.find('/').unwrap_or(rest.len()));
+
+    let did: CoreDID = CoreDID::parse(did)?;
+    let mut url: RelativeDIDUrl = RelativeDIDUrl::new();
+    url.set_path(Some(path))?;
+    // The setters strip one leading delimiter, so hand them the components with their delimiter:
+    // a query that itself starts with '?' is then kept verbatim and an empty query or fragment
+    // (`did:a:b?`, `did:a:b#`) is rejected instead of being dropped silently.
+    url.set_query(query.map(|query| format!("?{query}")).as_deref())?;
+    url.set_fragment(fragment.map(|fragment| format!("#{fragment}")).as_deref())?;
+
+    Ok(Self { did, url })
   }
 
   fn from_base_did_url(did_url: BaseDIDUrl) -> Result<Self, Error> {
